@@ -315,14 +315,17 @@ func (p *exeParser) readVarDefs() (vds []*VarDef, err error) {
 
 func (p *exeParser) readVarDef() (vd *VarDef, err error) {
 	vd = &VarDef{}
+	// The location is where the name starts, the character after the $ just
+	// read. After readToken the scanner may be on the next line.
+	line, col := p.line, p.col+1
 	if vd.Name, err = p.readToken(); err != nil {
 		return
 	}
 	if len(vd.Name) == 0 {
 		return nil, parseError(p.line, p.col, "variable name missing")
 	}
-	vd.line = p.line
-	vd.col = p.col - len(vd.Name)
+	vd.line = line
+	vd.col = col
 	var b byte
 	if b, err = p.skipSpace(); err != nil {
 		return nil, err
